@@ -155,8 +155,10 @@ pub fn run(a: &Args) {
                 line.u(outcome).u(3);
                 let mut r = Line::bare(); r.z(traced).b(stopped > 0).u(if mode == 5 { got.1 } else { 0 });
                 out.case(line.s(), r.s(), true);
-                let mut l = Line::new("const"); l.u(3).u(2).b(true); let mut r = Line::bare(); r.u(got.0).u(got.1).b(released.load(std::sync::atomic::Ordering::SeqCst));
+                let mut l = Line::new("const"); l.u(3).u(2); let mut r = Line::bare(); r.u(got.0).u(got.1);
                 out.case(l.s(), r.s(), true);
+                // (whether the watcher saw the attach before releasing the thread only decides which path delivered the signals)
+                out.count(if released.load(std::sync::atomic::Ordering::SeqCst) { "vfork.released_after_attach" } else { "vfork.released_by_timeout" });
                 out.count(["run.queued_signals_seen_by_attach", "run.queued_signals_with_group_stop"][(mode - 5) as usize]);
             }
         }
